@@ -1007,8 +1007,16 @@ fn cli_case(case: &mut Case, base: &Path) -> CaseResult {
             }
         }
         4 => {
-            mode = "config-mutation";
-            gp.config = mutate_chars(&mut mch, &gp.config.clone());
+            if mch.chance(1, 3) {
+                // a documented option combination instead of a character mutation: the schema types come from a
+                // module specifier and no schema declaration file is generated
+                mode = "config-module-specifier-without-schema-output";
+                let lines: Vec<String> = gp.config.lines().filter(|l| !l.trim_start().starts_with("schemaOutput:") && !l.trim_start().starts_with("resolversOutput:")).map(String::from).collect();
+                gp.config = lines.join("\n") + "\n      schemaModuleSpecifier: \"@/generated/schema\"\n";
+            } else {
+                mode = "config-mutation";
+                gp.config = mutate_chars(&mut mch, &gp.config.clone());
+            }
         }
         _ => {}
     }
@@ -1175,15 +1183,7 @@ pub fn run(env: &Env) -> i32 {
             None => rep.note("loader ABI part: no evidence file found (vh-loader C08 did not finish)"),
         }
     }
-    if let Ok(p) = std::env::var("VH_FUZZ_SUMMARY") {
-        if let Ok(t) = std::fs::read_to_string(&p) {
-            let lines: Vec<String> = t.lines().filter(|l| l.starts_with("FUZZ ") || l.starts_with("VIOLATION") || l.starts_with("INCONCLUSIVE")).map(String::from).collect();
-            if !lines.is_empty() {
-                rep.note(format!("libFuzzer targets (tools/fuzz.sh): {}", lines.join("; ")));
-                rep.extra.insert("libfuzzer".into(), json!(lines));
-            }
-        }
-    }
+    rep.merge_fuzz_summary();
     rep.finish()
 }
 
@@ -1359,4 +1359,22 @@ pub fn work_estimate_texts(schema_texts: &[&str], op_texts: &[&str], limit: u64)
         }
     }
     work_estimate(&schema, &all, limit)
+}
+
+/// While the finding C08-generate-exponential-nested-merge is open, generated documents whose work
+/// estimate exceeds WORK_LIMIT are replaced by a trivial query (counted as redirected by the finding), so
+/// that checks which run `generate` on valid documents neither hang nor report the same defect again.
+pub fn tame_exponential(case: &mut Case, s: &crate::schema::Schema, doc: MOpDoc) -> MOpDoc {
+    if work_estimate(s, &doc, WORK_LIMIT) < WORK_LIMIT || case.allow("generate_exponential_nested_merge") {
+        return doc;
+    }
+    case.label("excluded:generate-exponential");
+    vec![MExecDef::Op(MOperation {
+        op: OpType::Query,
+        name: Some("Tamed".into()),
+        vars: vec![],
+        directives: vec![],
+        sel: vec![MSelection::Field(MFieldSel { alias: None, name: "__typename".into(), args: vec![], directives: vec![], sel: None })],
+        shorthand: false,
+    })]
 }
